@@ -261,6 +261,12 @@ def gen_screen_case(r, idx, wild=False):
                 w, h = w + r.below(2), max(1, h - r.below(2))
             lines.append("K 0 resize %d %d" % (w, h))
         nset = r.pick([0, 0, 1, 1, 2, 3, w, w * h])
+        if frame > 0 and r.chance(1, 6):
+            # modification through the iterators rather than operator[]
+            if r.chance(1, 2):
+                lines.append("K 0 fill " + es.next())
+            else:
+                lines.append("K 0 iterset %d %s" % (r.below(w * h), es.next()))
         for _ in range(nset):
             c = r.below(6)
             if c == 0:
@@ -703,4 +709,80 @@ def gen_strings_case(r, idx):
             a = [el(wf_glyph(r), wf_attr(r)) for _ in range(r.below(6))]
             lines.append("M tostring %d %s" % (len(a), " ".join(a)))
     lines.append("END")
+    return lines
+
+
+def gen_canvas_alias_case(r, idx):
+    """two or three canvases related by copy construction, then modified through
+    operator[], iterators (fill, *(begin()+i) = e) and resize; every canvas is
+    dumped after every change: a copy is a value, not an alias"""
+    lines = ["CASE %d" % idx]
+    w, h = r.rng(1, 4), r.rng(1, 3)
+    lines.append("K 0 new %d %d" % (w, h))
+    dims = {0: (w, h)}
+    n = 0
+    for y in range(h):
+        for x in range(w):
+            n += 1
+            lines.append("K 0 set %d %d %s" % (x, y, el((5, 0x41 + n % 50, 0, 0), DEFAULT_ATTR)))
+    k = 1
+    for _ in range(r.rng(2, 8)):
+        c = r.below(6)
+        ids = sorted(dims)
+        if c == 0 and k < 3:
+            src = r.pick(ids)
+            lines.append("K %d copy %d" % (k, src))
+            dims[k] = dims[src]
+            k += 1
+        else:
+            t = r.pick(ids)
+            tw, th = dims[t]
+            e = el(wf_glyph(r), wf_attr(r))
+            if c == 1:
+                lines.append("K %d fill %s" % (t, e))
+            elif c == 2 and tw * th > 0:
+                lines.append("K %d iterset %d %s" % (t, r.below(tw * th), e))
+            elif c == 3 and tw * th > 0:
+                lines.append("K %d set %d %d %s" % (t, r.below(tw), r.below(th), e))
+            elif c == 4:
+                nw, nh = r.rng(0, 4), r.rng(0, 3)
+                lines.append("K %d resize %d %d" % (t, nw, nh))
+                dims[t] = (nw, nh)
+            else:
+                continue
+        for i in sorted(dims):
+            lines.append("K %d dump" % i)
+    lines.append("END")
+    return lines
+
+
+STD_LOOKUP = {48: 0, 60: 1, 62: 3, 65: 4, 66: 5, 52: 6, 67: 7, 53: 7, 82: 8, 102: 8, 81: 9, 57: 9, 75: 10, 89: 11,
+              96: 12, 69: 12, 54: 12, 90: 14, 72: 15, 55: 15, 61: 16, 85: 17}
+STD_LOOKUP_EXT = {53: 2, 54: 13}
+
+
+def gen_charset_sweep():
+    """every one-byte and every %-extended designator candidate through the
+    markup decoder (which calls lookup_character_set), and every set through a
+    terminal write (which calls encode_character_set)"""
+    lines = []
+    n = 0
+    for ext in (0, 1):
+        for b in range(256):
+            n += 1
+            lines.append("CASE %d" % n)
+            want = (STD_LOOKUP_EXT if ext else STD_LOOKUP).get(b, 5)
+            if not ext and b == 37:
+                want = 5
+            lines.append("# WANTCS %d" % want)
+            lines.append("M ete " + hexs([92, 99] + ([37] if ext else []) + [b, 88]))
+            lines.append("END")
+    for cs in range(18):
+        n += 1
+        lines.append("CASE %d" % n)
+        lines.append("# WANTDESIG " + hexs(DESIGNATOR[cs]))
+        lines.append("T 0 new 0")
+        lines.append("T 0 elem " + el((5, 65, 0, 0), DEFAULT_ATTR))
+        lines.append("T 0 elem " + el((cs, 66, 0, 0), DEFAULT_ATTR))
+        lines.append("END")
     return lines
